@@ -459,7 +459,23 @@ func (g *Gen) Fill(v reflect.Value, p Params, depth int) {
 			if t.NumField() <= 1 {
 				return
 			}
+			// alternatives that can hold a value: a choice-Extensions container whose IE set is empty (an empty Go structure) denotes no
+			// ASN.1 value at all (the library writes nothing for it and cannot read it back) and is never generated
+			var real []int
+			for a := 1; a < t.NumField(); a++ {
+				ft := t.Field(a).Type
+				for ft.Kind() == reflect.Ptr {
+					ft = ft.Elem()
+				}
+				if ft.Kind() == reflect.Struct && (ft.NumField() == 0 || hasNoAlternatives(ft)) {
+					continue
+				}
+				real = append(real, a)
+			}
 			alt := 1 + g.R.Intn(t.NumField()-1)
+			if len(real) > 0 {
+				alt = real[g.R.Intn(len(real))]
+			}
 			if g.Rich {
 				var cands []int
 				for a := 1; a < t.NumField(); a++ {
